@@ -53,12 +53,15 @@ type sessKind struct {
 	refused   bool // Connect again while connected
 	eof       bool // the server closes right after the burst
 	connectTo bool // password given through ConnectTo
+	stall     bool // the server never reads: the registration lines stay queued until the connection ends
 }
 
 func kinds() []sessKind {
 	ks := []sessKind{{name: "plain"}, {name: "negotiation", neg: true}, {name: "tracking", tracking: true}, {name: "negotiation+tracking", neg: true, tracking: true},
 		{name: "dial-failure", dialFail: true}, {name: "refused-connect", refused: true}, {name: "eof-after-burst", eof: true, neg: true},
-		{name: "connect-to", connectTo: true}}
+		{name: "connect-to", connectTo: true},
+		{name: "stalled-server+close", stall: true}, {name: "negotiation+stalled-server+close", stall: true, neg: true},
+		{name: "negotiation+stalled-server+eof", stall: true, neg: true, eof: true}}
 	for n := 1; n <= 4; n++ {
 		ks = append(ks, sessKind{name: fmt.Sprintf("write-%d-fails", n), failWrite: n})
 		ks = append(ks, sessKind{name: fmt.Sprintf("negotiation+write-%d-fails", n), failWrite: n, neg: true})
@@ -83,6 +86,9 @@ func runSession(k sessKind, pw string, lg *capLog) []string {
 			return nil, errors.New("fakenet: connection refused")
 		}
 		c := fakenet.NewConn()
+		if k.stall {
+			c.SetBudget(0)
+		}
 		if k.failWrite > 0 {
 			c.FailWrite(k.failWrite, errors.New("fakenet: broken pipe"))
 		}
@@ -106,6 +112,15 @@ func runSession(k sessKind, pw string, lg *capLog) []string {
 			select {
 			case <-disc:
 			case <-time.After(500 * time.Millisecond):
+			}
+		} else if k.stall {
+			time.Sleep(2 * time.Millisecond) // let the REGISTER handler queue its lines
+			if k.eof {
+				s.Srv.EOF()
+				select {
+				case <-disc:
+				case <-time.After(2 * time.Second):
+				}
 			}
 		} else {
 			s.Srv.WaitLine("USER ", 0, 2*time.Second)
